@@ -107,9 +107,9 @@ static void emit_node(const struct aws_json_value *v) {
         double d = 0;
         aws_json_value_get_number(v, &d);
         char p15[64], p17[64];
-        snprintf(p15, sizeof(p15), "%.15g", d);
-        snprintf(p17, sizeof(p17), "%.17g", d);
-        double y = strtod(p15, NULL);
+        vh_snprintf_c(p15, sizeof(p15), "%.15g", d);
+        vh_snprintf_c(p17, sizeof(p17), "%.17g", d);
+        double y = vh_strtod_c(p15);
         int few = y == d;
         fputs("{\"t\":\"num\",\"x\":[", vh_out);
         emit_bytes((const uint8_t *)p15, strlen(p15));
@@ -180,9 +180,9 @@ static void emit_flat(const struct aws_json_value *v) {
             double d = 0;
             aws_json_value_get_number(v, &d);
             char p15[64], p17[64];
-            snprintf(p15, sizeof(p15), "%.15g", d);
-            snprintf(p17, sizeof(p17), "%.17g", d);
-            double y = strtod(p15, NULL);
+            vh_snprintf_c(p15, sizeof(p15), "%.15g", d);
+            vh_snprintf_c(p17, sizeof(p17), "%.17g", d);
+            double y = vh_strtod_c(p15);
             fputc('[', vh_out);
             emit_bytes((const uint8_t *)p15, strlen(p15));
             fputc(',', vh_out);
@@ -314,7 +314,7 @@ int main(int argc, char **argv) {
                 n = strlen(txt);
                 arg = malloc(n);
                 memcpy(arg, txt, n);
-                slot[s] = aws_json_value_new_number(A, strtod(txt, NULL));
+                slot[s] = aws_json_value_new_number(A, vh_strtod_c(txt));
             } else {
                 fprintf(stderr, "script: NEW %s\n", k);
                 exit(3);
